@@ -912,7 +912,11 @@ func (ce *CEnv) call(x *ECall) Val {
 			return ce.intLit(big.NewInt(u.Len()))
 		case *types.Map:
 			ks := fv.mapKeys(u)
-			return Val{T: types.Typ[types.Int], S: "(select " + fv.heapGet(ce.st, ks[2]) + " " + v.S + ")"}
+			card := "(select " + fv.heapGet(ce.st, ks[2]) + " " + v.S + ")"
+			if ce.qdepth == 0 && len(ce.bound) == 0 {
+				fv.q.assume("(and " + fv.mode.cmp(">=", card, fv.mode.idx(0), true) + " " + fv.mode.cmp("<=", card, fv.mode.idx(281474976710655), true) + ")")
+			}
+			return Val{T: types.Typ[types.Int], S: card}
 		}
 		cfail("len of %v", v.T)
 	case "cap":
@@ -1403,7 +1407,7 @@ func (ce *CEnv) pureCall(f *types.Func, recv *Val, args []Expr) Val {
 				fc = fv.eng.cs.Funcs[f.Pkg().Path()+"#"+key]
 			}
 			if fc == nil {
-				fc = fv.eng.externContract(f)
+				fc = fv.externContract(f)
 			}
 		}
 		if fc != nil && fc.Pure && len(fc.Ensures) > 0 {
